@@ -34,6 +34,7 @@ def run(ctx):
     ctx.rule("frame/length-prefix", "the leading 2-octet length equals the number of octets that follow (CSBK trailer counted as the code does today) and len(pdu) = octets produced")
     ctx.rule("wire/decode-then-encode", "with one octet of the captured packet symbolic at a time: every wire bit that a decoded field depends on is re-encoded at the same position (parse then serialise gives the same bytes)")
     ctx.rule("shape/coverage", "at least the hand-confirmed number of shapes per protocol")
+    ctx.rule("enum/member-roundtrip", "every defined member of an enumeration field that the writer of a captured shape transmits comes back as that member (build -> serialise -> parse), e.g. every ARS failure reason")
     ctx.rule("ars/non-ascii", "device / user identifiers and passwords with multi-byte UTF-8 characters keep their length-value framing over a round trip")
     fam = {}
     for ci, tfile in ((tms, "motorola/test_tms.py"), (ars, "motorola/test_ars.py")):
@@ -62,6 +63,8 @@ def run(ctx):
             shapes.setdefault(shape_of(o), raw)
         for shp, raw in sorted(shapes.items(), key=lambda kv: repr(kv[0])):
             analyse(ctx, repo, ci, fb, raw, fam)
+            with ctx.guard(f"enum members of shape {raw[:6].hex()}"):
+                enum_members(ctx, repo, ci, fb, raw)
             # the same shape with its variable-length byte fields at the boundaries of their one-octet / two-octet length
             # fields (the property quantifies over addresses of 0..255 octets and texts of 0..200 UCS-2 characters)
             if ci is tms:
@@ -73,6 +76,112 @@ def run(ctx):
     non_ascii(ctx, repo, ars)
     ctx.require("shape/roundtrip-fields", 7)
     ctx.require("frame/length-prefix", 7)
+
+
+def enum_paths(o, path="", depth=0):
+    out = []
+    if isinstance(o, AObj) and depth < 4:
+        for k, v in o.attrs.items():
+            if k.startswith("_") or k in KEEP:
+                continue
+            sub = f"{path}.{k}" if path else k
+            if isinstance(v, EnumMember):
+                out.append(sub)
+            elif isinstance(v, AObj):
+                out += enum_paths(v, sub, depth + 1)
+    return out
+
+
+def set_path(o, path, val):
+    parts = path.split(".")
+    for p_ in parts[:-1]:
+        o = o.attrs[p_]
+    o.attrs[parts[-1]] = val
+
+
+def enum_members(ctx, repo, ci, fb, raw):
+    """constant evaluation: the captured object with one enumeration field set to each of its defined members in turn; where the
+    writer transmits the field (the octets differ from those of another member), the reader must hand that member back"""
+    from sa.shapes import lookup
+    I = Interp(repo)
+    wb = repo.find_method(ci, "as_bytes")
+
+    def conc(v):
+        b = bits_of(I, v)
+        return tuple(x.c for x in b) if b is not None and all(isinstance(x, F) and x.is_const for x in b) else None
+
+    r0 = explore(lambda st: (setattr(I, "st", st), I.call(fb, [raw], {}))[1], max_paths=4)
+    if len(r0) != 1 or r0[0][1][0] != "ok" or not isinstance(r0[0][1][1], AObj):
+        return
+    o0 = r0[0][1][1]
+    for path in enum_paths(o0):
+        cur = lookup(o0, path)
+        eci = next((c_ for c_ in repo.all_classes() if c_.name == cur.cls and repo.is_enum(c_)), None)
+        if eci is None:
+            continue
+        # the captured shape, and the same shape with one boolean flag inverted at a time (the ARS failure reason is only
+        # transmitted in a negative acknowledgement; no capture is one)
+        for toggle in [None] + bool_paths(o0):
+            def build(st, val, toggle=toggle):
+                I.st = st
+                ob = I.call(fb, [raw], {})
+                if toggle is not None:
+                    set_path(ob, toggle, not lookup(ob, toggle))
+                set_path(ob, path, val)
+                return ob
+            wires = {}
+            back = {}
+            for m in repo.enum_members(eci).values():
+                def run_m(st, m=m):
+                    w = I.call(wb, [build(st, m)], {})
+                    ob2 = I.call(fb, [w], {})
+                    return w, ob2
+                try:
+                    rv = explore(run_m, max_paths=4)
+                except AnalysisError:
+                    continue
+                if len(rv) != 1 or rv[0][1][0] != "ok":
+                    continue     # the writer / reader refuses this member in this shape (a documented error exit) or it selects another shape
+                w, ob2 = rv[0][1][1]
+                cw = conc(w)
+                if cw is None or not isinstance(ob2, AObj):
+                    continue
+                wires[m.name] = cw
+                back[m.name] = (m, lookup(ob2, path))
+            ctx.info(f"enum members {ci.name} {raw[:6].hex()} {path}{' with ' + toggle + ' inverted' if toggle else ''}: {len(wires)} member(s) written and read, {len(set(wires.values()))} distinct encodings")
+            if len(set(wires.values())) < 2:
+                continue         # the writer does not transmit this field in this shape
+            for name, (m, got) in sorted(back.items()):
+                if sum(1 for w_ in wires.values() if w_ == wires[name]) > 1:
+                    continue     # several members share these octets in this shape: the wire cannot tell them apart
+                ok = got == m
+                if not ok and (got is None or isinstance(got, EnumMember)):
+                    # the reader may hand back another representative of the same wire value (TMS encoding UNDEFINED is read as None):
+                    # fine exactly when that representative serialises to the same octets
+                    try:
+                        rg = explore(lambda st, got=got: I.call(wb, [build(st, got)], {}), max_paths=4)
+                        ok = len(rg) == 1 and rg[0][1][0] == "ok" and conc(rg[0][1][1]) == wires[name]
+                    except AnalysisError:
+                        ok = False
+                ctx.ob("enum/member-roundtrip", f"{ci.name} | capture {raw[:6].hex()}…{' with ' + toggle + ' inverted' if toggle else ''} | {path}={name}", ok,
+                       f"built with {path} = {eci.name}.{name}, serialised and parsed: comes back as {getattr(got, 'name', got)!r}"
+                       + ("" if ok else ", which serialises to other octets"), fb.loc)
+            if toggle is None:
+                break            # transmitted in the captured shape itself: no need for the flag variants
+
+
+def bool_paths(o, path="", depth=0):
+    out = []
+    if isinstance(o, AObj) and depth < 4:
+        for k, v in o.attrs.items():
+            if k.startswith("_"):
+                continue
+            sub = f"{path}.{k}" if path else k
+            if isinstance(v, bool):
+                out.append(sub)
+            elif isinstance(v, AObj):
+                out += bool_paths(v, sub, depth + 1)
+    return out
 
 
 def ctor_flags(repo, ci):
